@@ -93,6 +93,8 @@ def menu_entry(k):
         m["n_eql"] = rng.choice([0, 1, 2])
         m["n_ene_blocks_eql"] = rng.choice([1, 2])
         m["n_sr_blocks_eql"] = rng.choice([1, 2])
+    if kind != "cpmc":
+        lab.corner_override(m, k, 8, empty_ok=m.get("ad_mode") is None)
     return m
 
 
@@ -103,7 +105,7 @@ def gen_cfg(seed, index, tier):
     m["ham_seed"] = rng.randrange(1, 2**31 - 1)
     m["strength"] = rng.choice([0.3, 0.6, 0.9, 1.3])
     m["mix"] = rng.choice([0.0, 0.05, 0.2, 0.4])
-    m["spin_dep"] = m["wt"] == "unrestricted" and rng.random() < 0.5
+    m["spin_dep"] = m["wt"] == "unrestricted" and rng.random() < 0.5 and m.get("trial") != "rhf"
     m["jax_seed"] = rng.randrange(1, 2**20)
     m["n_calls"] = rng.choice([2, 3])
     if m["kind"] == "cpmc":
